@@ -26,7 +26,7 @@ REG = dict(category="exploration",
 
 def run(tier, seed):
     return generic.run_spec("C07", tier, seed, STEPS, RULE,
-                            required=["callbacks", "callbacks_child", "deliveries", "deliveries_in_callback", "last_dels",
+                            required=["callbacks", "callbacks_child", "child_delivery_before_reinit_prior_other", "child_delivery_before_reinit_prior_ign", "deliveries", "deliveries_in_callback", "last_dels",
                                       "oneshot_autodel", "restore_checks", "base_free_checks", "base_free_with_events_added",
                                       "child_reinits", "batches_multi", "partial_dels",
                                       "cfg_epoll_selfpipe", "cfg_epoll_signalfd", "cfg_poll_selfpipe", "cfg_poll_signalfd",
